@@ -27,7 +27,11 @@ Definition zparse (s : string) : option Z :=
               end in
   match NilZero.int_of_string body with Some d => Some (Z.of_int d) | None => None end.
 
-(* ------------------------------------------------------------------ binary64 *)
+(* ------------------------------------------------------------------ binary64
+   NOTE: since the repair fixes/09 (vm.ScriptV1 decodes with json.Decoder.UseNumber) no decoder modelled in Ledger/Api.v goes through
+   float64 any more; the definitions below (correct rounding, amd64 float->int, shortest %v) describe the pre-repair behaviour and the
+   float64 branch ScriptV1.ToCore keeps for programmatic callers. They agreed with Go on ~100 000 generated literals while tied; they are
+   no longer exercised by a tie and no theorem depends on them. *)
 (* |value| of a literal as a fraction num/den (den > 0); guards keep 10^e small: beyond them the value
    overflows binary64 (`FOver`) or rounds to zero (`FZero`) whatever the mantissa is. *)
 Inductive ratio := FOver | FZero | FRat (num den : Z).
